@@ -59,7 +59,7 @@ ibz_vec_4_print2(char *name, const ibz_vec_4_t *vec)
 
 // compute the commitment with fixed degree isogeny
 // and apply it to the basis of E0
-void
+int
 commit(ec_curve_t *E_com, quat_left_ideal_t *lideal_com, ec_basis_t *B_com)
 {
 
@@ -73,6 +73,12 @@ commit(ec_curve_t *E_com, quat_left_ideal_t *lideal_com, ec_basis_t *B_com)
 
     theta_chain_t F;
     found = fixed_degree_isogeny(&F, lideal_com, &n, &adj, 1);
+    if (!found) {
+        // F is not set
+        ibz_finalize(&n);
+        ibz_finalize(&adj);
+        return 0;
+    }
 
     // it's always the second curve
     copy_curve(E_com, &F.codomain.E2);
@@ -91,14 +97,13 @@ commit(ec_curve_t *E_com, quat_left_ideal_t *lideal_com, ec_basis_t *B_com)
     theta_chain_eval_special_case(&ResQ, &F, &EvQ, &F.domain);
     theta_chain_eval_special_case(&ResPmQ, &F, &EvPmQ, &F.domain);
 
-    assert(found);
-
     copy_point(&B_com->P, &ResP.P2);
     copy_point(&B_com->Q, &ResQ.P2);
     copy_point(&B_com->PmQ, &ResPmQ.P2);
 
     ibz_finalize(&n);
     ibz_finalize(&adj);
+    return found;
 }
 
 void
@@ -348,7 +353,11 @@ protocols_sign(signature_t *sig,
     ibz_vec_2_init(&vec_resp_two);
 
     // computing the commitment
-    commit(&E_com, &lideal_commit, &B_com0);
+    if (!commit(&E_com, &lideal_commit, &B_com0)) {
+        // the fixed degree isogeny computation failed: E_com and B_com0 are not set
+        found = 0;
+        goto cleanup;
+    }
 
     // challenge length
     int len_chall = SQIsign2D_heuristic_challenge_length;
@@ -675,6 +684,7 @@ protocols_sign(signature_t *sig,
         assert(0);
     }
 
+cleanup:
     ibz_finalize(&pow_chall);
     ibz_vec_2_finalize(&vec);
     ibz_vec_2_finalize(&vec_chall);
